@@ -51,6 +51,7 @@ class Outcome:
         self.detail = ""
         self.observed = None
         self.trivial = False
+        self.timed_out = False
 
 
 def check_call(contract: Contract, call: Callable[[], Any], ns_args: Dict[str, Any], time_limit: int = 20) -> Outcome:
@@ -78,6 +79,7 @@ def check_call(contract: Contract, call: Callable[[], Any], ns_args: Dict[str, A
         result = call()
     except Timeout:
         out.trivial = True
+        out.timed_out = True
         return out
     except BaseException as e:  # noqa
         raised = e
@@ -171,8 +173,12 @@ class NativeSuite:
     input and build(desc) -> (call, ns_args) constructs the real objects and the closure that calls the real function.
     """
 
+    MAX_TIMEOUTS = 3       # after this many calls of the real code ran into the time limit the native run is abandoned
+    CALL_TIME_LIMIT = 10   # seconds per call of the real function
+
     def __init__(self):
         self.cases: List[Tuple[str, Callable, Callable]] = []
+        self.timeouts: List[dict] = []
 
     def add(self, qualname: str, gen: Callable, build: Callable):
         self.cases.append((qualname, gen, build))
@@ -184,7 +190,10 @@ class NativeSuite:
         distinct = set()
         failures = []
         samples = []
+        self.timeouts = getattr(self, "timeouts", [])
         for qualname, gen, build in self.cases:
+            if len(self.timeouts) >= self.MAX_TIMEOUTS:
+                break  # the real code keeps running into the per-call time limit: stop the (bounded) native run
             if only is not None and not qualname.endswith(only) and only not in qualname:
                 continue
             contract = reg.contracts.get(qualname if qualname.startswith("pydsdl.") else "pydsdl." + qualname)
@@ -199,7 +208,11 @@ class NativeSuite:
                 except Exception as e:
                     continue
                 evaluations += 1
-                o = check_call(contract, call, ns_args)
+                o = check_call(contract, call, ns_args, time_limit=self.CALL_TIME_LIMIT)
+                if o.timed_out:
+                    self.timeouts.append({"function": qualname, "input": desc, "limit_s": self.CALL_TIME_LIMIT})
+                    if len(self.timeouts) >= self.MAX_TIMEOUTS:
+                        break
                 if o.trivial:
                     continue
                 key = repr(desc)
